@@ -1,7 +1,7 @@
 (* Round trip of the serialiser side A through the reference decoder R: frame header, block framing,
    raw / RLE blocks, epilogue - for every content, every parameter vector, every trailing input. *)
 From Coq Require Import NArith ZArith List Bool Lia.
-From ZV.Codec Require Import Bytes ListLemmas XXH64 Fse Huf Block Frame LzProofs FrameProofs.
+From ZV.Codec Require Import Bytes ListLemmas XXH64 Fse Huf Block Frame LzProofs FrameProofs LzContent.
 From ZV.Codec Require Import Encode.
 Import ListNotations.
 Local Open Scope N_scope.
@@ -266,9 +266,9 @@ Qed.
 
 (* ---------- extension of the decoder state by a piece of content ---------- *)
 Definition ext (x x' : xstate) (c : bytes) : Prop :=
-  inv x' /\ x_hist x' = rev c ++ x_hist x /\ x_pos x' = x_pos x + lenN c /\ x_avail x' = x_avail x + lenN c.
+  sinv x' /\ x_hist x' = rev c ++ x_hist x /\ x_pos x' = x_pos x + lenN c /\ x_avail x' = x_avail x + lenN c.
 
-Lemma ext_refl x : inv x -> ext x x [].
+Lemma ext_refl x : sinv x -> ext x x [].
 Proof. intros H. unfold ext. rewrite lenN_nil. cbn [rev app]. split; [exact H|]. split; [reflexivity|]. split; lia. Qed.
 
 Lemma ext_trans x y z a b : ext x y a -> ext y z b -> ext x z (a ++ b).
@@ -277,12 +277,11 @@ Proof.
   split; [exact I2|]. split; [exact H2|]. split; lia.
 Qed.
 
-Local Transparent push_fwd push_rev.
-Lemma push_fwd_ext x d : inv x -> ext x (push_fwd x d (lenN d)) d.
+Lemma push_fwd_ext x d : sinv x -> ext x (push_fwd x d (lenN d)) d.
 Proof.
-  intros Hi. destruct (push_fwd_inv x d (lenN d) Hi eq_refl) as (I & P & A & _).
-  unfold ext. split; [exact I|]. split; [|split; assumption].
-  unfold push_fwd; cbn [x_hist]. apply rev_append_rev.
+  intros Hs. destruct (push_fwd_inv x d (lenN d) (sinv_inv x Hs) eq_refl) as (_ & P & A & _).
+  destruct (push_fwd_sinv x d (lenN d) Hs eq_refl) as (S1 & H1).
+  unfold ext. split; [exact S1|]. split; [exact H1|split; assumption].
 Qed.
 
 Lemma rev_repeat_self {A} (v : A) n : rev (repeat v n) = repeat v n.
@@ -291,21 +290,21 @@ Proof.
   induction n as [|n IH]; [reflexivity|]. cbn [repeat app]. rewrite IH. reflexivity.
 Qed.
 
-Lemma push_rev_ext x v n : inv x -> ext x (push_rev x (repeatN v n []) n) (repeatN v n []).
+Lemma push_rev_ext x v n : sinv x -> ext x (push_rev x (repeatN v n []) n) (repeatN v n []).
 Proof.
-  intros Hi. assert (L : lenN (repeatN v n []) = n) by (rewrite lenN_repeatN, lenN_nil; lia).
-  destruct (push_rev_inv x (repeatN v n []) n Hi L) as (I & P & A & _).
-  unfold ext. rewrite L. split; [exact I|]. split; [|split; assumption].
-  unfold push_rev; cbn [x_hist]. rewrite app_tr_app, repeatN_spec, app_nil_r, rev_repeat_self. reflexivity.
+  intros Hs. assert (L : lenN (repeatN v n []) = n) by (rewrite lenN_repeatN, lenN_nil; lia).
+  destruct (push_rev_inv x (repeatN v n []) n (sinv_inv x Hs) L) as (_ & P & A & _).
+  destruct (push_rev_sinv x (repeatN v n []) n Hs L) as (S1 & H1).
+  unfold ext. rewrite L. split; [exact S1|]. split; [|split; assumption].
+  rewrite H1, repeatN_spec, app_nil_r, rev_repeat_self. reflexivity.
 Qed.
-Local Opaque push_fwd push_rev.
 
 Definition simple_block (b : eblock) : bool := match b with EBComp _ _ => false | _ => true end.
 Definition block_fits (blockMax : N) (b : eblock) : Prop :=
   match b with EBRaw d => lenN d <= blockMax | EBRle _ n => n <= blockMax | EBComp pl _ => lenN pl <= blockMax end.
 
 Lemma blocks_spec_simple strict window blockMax : forall bs e x,
-  inv x -> forallb simple_block bs = true -> Forall (block_fits blockMax) bs ->
+  sinv x -> forallb simple_block bs = true -> Forall (block_fits blockMax) bs ->
   exists x', blocks_spec strict window blockMax e x bs = Ok (e, x') /\ ext x x' (blocks_content bs).
 Proof.
   induction bs as [|b t IH]; intros e x Hi Hs Hf.
@@ -337,8 +336,8 @@ Definition dict_ok (d : option dict) (p : fparams) (dictID : N) : Prop :=
   end.
 Definition frame_window (p : fparams) (n : N) : N := if fh_single_segment p n then n else pow2 (fp_windowLog p).
 
-Lemma x_init_inv d : inv (x_init d).
-Proof. unfold inv, x_init; cbn [x_hist x_marks x_avail x_pos]. rewrite rev'_rev, lenN_rev. repeat split; [lia|constructor]. Qed.
+Lemma x_init_inv d : sinv (x_init d).
+Proof. split; [|constructor]. unfold inv, x_init; cbn [x_hist x_marks x_avail x_pos]. rewrite rev'_rev, lenN_rev. repeat split; [lia|constructor]. Qed.
 
 Lemma frame_output_ext d x' c : ext (x_init d) x' c -> frame_output x' = c /\ x_pos x' = lenN c.
 Proof.
